@@ -192,6 +192,13 @@ def c28(tier, seed):
             for rel in ("EQ", "LT", "GT"):
                 for k in range(0, n + 2):
                     specs.append((n, [], [(rel, k, list(range(1, n + 1)))]))
+        # several requests over ONE variable list (a band  lo < count < hi, an exact count plus a bound, the same request twice)
+        for n in (2, 3, 4):
+            vs_all = list(range(1, n + 1))
+            for (r1, k1) in (("GT", 0), ("GT", 1), ("EQ", 1), ("LT", n)):
+                for (r2, k2) in (("LT", n), ("LT", 2), ("EQ", 2), ("GT", 0), ("EQ", 1)):
+                    specs.append((n, [], [(r1, k1, vs_all), (r2, k2, vs_all)]))
+            specs.append((n, [[1, 2]], [("GT", 0, vs_all), ("LT", n, vs_all), ("GT", 0, vs_all[:-1])]))
         m = 30 if tier == "quick" else 300
         for _ in range(m):
             n = rng.randrange(2, 6)
